@@ -41,19 +41,19 @@ pub open spec fn fold_spec(k: nat, v: Seq<nat>, e: nat, xi: nat) -> nat decrease
     }
 }
 
-//@repo crates/fri/src/formula.rs fn fri_formula2 props=C06
+//@repo crates/fri/src/formula.rs fn fri_formula2 props=C01,C02,C06
 fn fri_formula2(f_x: Felt, f_minus_x: Felt, eval_point: Felt, x_inv: Felt) -> (r: Felt)
-    ensures r@ == fold2(f_x@, f_minus_x@, eval_point@, x_inv@), // [C06:fold2-formula]
+    ensures r@ == fold2(f_x@, f_minus_x@, eval_point@, x_inv@), // [C01,C02,C06:fold2-formula]
 {
     f_x + f_minus_x + eval_point * x_inv * (f_x - f_minus_x)
 }
 //@end
 
-//@repo crates/fri/src/formula.rs fn fri_formula4 props=C06
+//@repo crates/fri/src/formula.rs fn fri_formula4 props=C01,C02,C06
 fn fri_formula4(values: Vec<Felt>, eval_point: Felt, x_inv: Felt) -> (r: Result<Felt, Error>)
     ensures
-        r.is_ok() <==> values@.len() == 4, // [C06,C07:fold4-needs-exactly-4-values]
-        r.is_ok() ==> r->Ok_0@ == fold_spec(2, fv(values@), eval_point@, x_inv@), // [C06:fold4-is-two-fold-steps]
+        r.is_ok() <==> values@.len() == 4, // [C01,C02,C06,C07:fold4-needs-exactly-4-values]
+        r.is_ok() ==> r->Ok_0@ == fold_spec(2, fv(values@), eval_point@, x_inv@), // [C01,C02,C06:fold4-is-two-fold-steps]
 {
     hide(fadd); hide(fsub); hide(fmul);
     if values.len() != 4 {
@@ -87,11 +87,11 @@ fn fri_formula4(values: Vec<Felt>, eval_point: Felt, x_inv: Felt) -> (r: Result<
 }
 //@end
 
-//@repo crates/fri/src/formula.rs fn fri_formula8 props=C06
+//@repo crates/fri/src/formula.rs fn fri_formula8 props=C01,C02,C06
 fn fri_formula8(values: Vec<Felt>, eval_point: Felt, x_inv: Felt) -> (r: Result<Felt, Error>)
     ensures
-        r.is_ok() <==> values@.len() == 8, // [C06,C07:fold8-needs-exactly-8-values]
-        r.is_ok() ==> r->Ok_0@ == fold_spec(3, fv(values@), eval_point@, x_inv@), // [C06:fold8-is-three-fold-steps]
+        r.is_ok() <==> values@.len() == 8, // [C01,C02,C06,C07:fold8-needs-exactly-8-values]
+        r.is_ok() ==> r->Ok_0@ == fold_spec(3, fv(values@), eval_point@, x_inv@), // [C01,C02,C06:fold8-is-three-fold-steps]
 {
     hide(fadd); hide(fsub); hide(fmul);
     if values.len() != 8 {
@@ -124,11 +124,11 @@ fn fri_formula8(values: Vec<Felt>, eval_point: Felt, x_inv: Felt) -> (r: Result<
 }
 //@end
 
-//@repo crates/fri/src/formula.rs fn fri_formula16 props=C06
+//@repo crates/fri/src/formula.rs fn fri_formula16 props=C01,C02,C06
 fn fri_formula16(values: Vec<Felt>, eval_point: Felt, x_inv: Felt) -> (r: Result<Felt, Error>)
     ensures
-        r.is_ok() <==> values@.len() == 16, // [C06,C07:fold16-needs-exactly-16-values]
-        r.is_ok() ==> r->Ok_0@ == fold_spec(4, fv(values@), eval_point@, x_inv@), // [C06:fold16-is-four-fold-steps]
+        r.is_ok() <==> values@.len() == 16, // [C01,C02,C06,C07:fold16-needs-exactly-16-values]
+        r.is_ok() ==> r->Ok_0@ == fold_spec(4, fv(values@), eval_point@, x_inv@), // [C01,C02,C06:fold16-is-four-fold-steps]
 {
     hide(fadd); hide(fsub); hide(fmul);
     if values.len() != 16 {
@@ -165,7 +165,7 @@ fn fri_formula16(values: Vec<Felt>, eval_point: Felt, x_inv: Felt) -> (r: Result
 
 pub open spec fn log2_cs(cs: nat) -> nat { if cs == 2 { 1 } else if cs == 4 { 2 } else if cs == 8 { 3 } else { 4 } }
 
-//@repo crates/fri/src/formula.rs fn fri_formula props=C06
+//@repo crates/fri/src/formula.rs fn fri_formula props=C01,C02,C06
 pub fn fri_formula(
     values: Vec<Felt>,
     eval_point: Felt,
@@ -175,8 +175,8 @@ pub fn fri_formula(
     requires
         coset_size@ == 2 || coset_size@ == 4 || coset_size@ == 8 || coset_size@ == 16, // [C18:fri-formula-coset-size-in-2-4-8-16-else-panic]
     ensures
-        r.is_ok() <==> values@.len() == coset_size@, // [C06,C07:fold-needs-exactly-coset-size-values]
-        r.is_ok() ==> r->Ok_0@ == fold_spec(log2_cs(coset_size@), fv(values@), eval_point@, x_inv@), // [C06:fold-is-log2(coset)-fold-steps]
+        r.is_ok() <==> values@.len() == coset_size@, // [C01,C02,C06,C07:fold-needs-exactly-coset-size-values]
+        r.is_ok() ==> r->Ok_0@ == fold_spec(log2_cs(coset_size@), fv(values@), eval_point@, x_inv@), // [C01,C02,C06:fold-is-log2(coset)-fold-steps]
 {
     let coset_size: u64 = coset_size.to_biguint().try_into()?;
     // Sort by usage frequency.
